@@ -684,6 +684,10 @@ def ent_strategy(engine: bool):
         'ins': st.lists(io_strategy(engine), max_size=3),
         'outs': st.lists(io_strategy(engine), max_size=3),
         'res': st.none() | st.lists(res_strategy(engine), max_size=4),
+        # near-duplicates: a keyvalue of an earlier entity repeated here, identical except for one field
+        'twins': st.lists(st.tuples(st.integers(0, 30), st.integers(0, 30),
+                                    st.sampled_from(['ro', 'ro', 'same', 'default', 'disp', 'type', 'rep'])).map(list),
+                          max_size=2),
     })
 
 
@@ -888,6 +892,32 @@ def _name_labels(ed, classname: str, stats: Stats) -> None:
         stats.labels.add('name:non_ascii_res_tag')
 
 
+def with_twins(desc_ents, i: int, stats: Stats) -> list:
+    """The keyvalue descriptors of entity i, plus its 'twins': copies of an earlier entity's keyvalue with one field changed."""
+    ed = desc_ents[i]
+    kvs = list(ed['kvs'])
+    if i == 0:
+        return kvs
+    for src, idx, flip in ed.get('twins', ()):
+        src_kvs = desc_ents[src % i]['kvs']
+        if not src_kvs:
+            continue
+        kd = dict(src_kvs[idx % len(src_kvs)], ghost=False)
+        if flip == 'ro':
+            kd['ro'] = not kd['ro']
+        elif flip == 'rep':
+            kd['rep'] = not kd['rep']
+        elif flip == 'default':
+            kd['default'] = expand(kd['default'])[:20] + '7'
+        elif flip == 'disp':
+            kd['disp'] = expand(kd['disp'])[:20] + ' (2)'
+        elif flip == 'type':
+            kd['type'] = 3 if VT[kd['type'] % len(VT)] != 'string' else 5
+        stats.labels.add('kv_twin:' + flip)
+        kvs.append(kd)
+    return kvs
+
+
 def build_text_fgd(desc, stats: Stats):
     """A general FGD through the object API (FGD(), EntityDef(), ent.kv[name, tags] = KVDef(...), ...)."""
     from srctools.fgd import FGD, EntityDef, EntityTypes
@@ -919,7 +949,7 @@ def build_text_fgd(desc, stats: Stats):
                     stats.labels.add('helper_arg:default_exact' if h[pos] == default else 'helper_arg:default_case_variant')
                     if h[0] in ('origin', 'vecline', 'sidelist', 'lightcone') and h[pos] != default:
                         stats.labels.add('helper_arg:omittable_default_case_variant')
-        for kd in ed['kvs']:
+        for kd in with_twins(desc['ents'], i, stats):
             kv = build_kv(kd, cs, stats)
             key = kd['name'].casefold()
             if key not in ent.keyvalues:
@@ -1055,7 +1085,7 @@ def build_engine_fgd(desc, stats: Stats):
             _name_labels(ed, ent.classname, stats)
         ent.desc = expand(ed['desc'])
         ent.helpers = [build_helper(h) for h in ed['helpers']]
-        for kd in ed['kvs']:
+        for kd in with_twins(desc['ents'], i, stats):
             kv = build_kv(kd, True, stats, engine=True)
             for attr in ('name', 'disp_name', 'default'):
                 setattr(kv, attr, getattr(kv, attr).replace('\x1f', ''))
@@ -1194,11 +1224,32 @@ def _alias_names() -> list:
     return _CACHE['aliases']
 
 
+def _twin_classes() -> list:
+    """Shipped classes owning a keyvalue that equals a keyvalue of other classes in every field but one
+    (here: readonly) and is the rarer variant - the places where sharing decoded objects would show."""
+    if 'twin_classes' not in _CACHE:
+        groups: dict = {}
+        for ent in full_fgd():
+            for tag_map in ent.keyvalues.values():
+                for kv in tag_map.values():
+                    if kv.val_list:
+                        continue
+                    key = (kv.name, kv.disp_name, kv.type.value, kv.default)
+                    groups.setdefault(key, {}).setdefault(bool(kv.readonly), []).append(ent.classname)
+        out = set()
+        for variants in groups.values():
+            if len(variants) > 1:
+                out.update(min(variants.values(), key=len)[:3])
+        _CACHE['twin_classes'] = sorted(out) or class_names()[:1]
+    return _CACHE['twin_classes']
+
+
 def lazy_strategy(tier: str):
     names = class_names()
     aliases = _alias_names()
     targets = _CACHE['alias_targets']
-    name = st.one_of(st.sampled_from(names), st.sampled_from(names), st.sampled_from(aliases), st.sampled_from(targets))
+    name = st.one_of(st.sampled_from(names), st.sampled_from(names), st.sampled_from(aliases), st.sampled_from(targets),
+                     st.sampled_from(_twin_classes()))
     query = st.tuples(name, st.sampled_from(['asis', 'asis', 'upper', 'lower'])).map(list)
     return st.fixed_dictionaries({
         'queries': st.lists(query, min_size=1, max_size=8),
@@ -1312,6 +1363,8 @@ def _execute_lazy(desc, ctx, db):
             if target not in seen:
                 ctx.label('alias_before_base')
                 ctx.nontrivial(True)
+        if name in _twin_classes():
+            ctx.label('twin_class_query')
         if key in seen:
             ctx.label('repeat_query')
         seen.add(key)
@@ -1362,9 +1415,10 @@ SUBCHECKS = [
         quick_shards=8, floor=50, enum_counts_distinct=True,
         must_hit=('shipped_slice', 'generated', 'alias', 'nobase', 'kv_default', 'kv_readonly', 'flags', 'res_tags',
                   'empty_tag_map', 'name:non_ascii_class', 'name:non_ascii_kv', 'name:non_ascii_io',
-                  'name:non_ascii_res_path', 'name:non_ascii_res_tag')),
+                  'name:non_ascii_res_path', 'name:non_ascii_res_tag', 'kv_twin:ro', 'kv_twin:same', 'kv_twin:default',
+                  'kv_twin:disp', 'kv_twin:type')),
     Sub('lazy', execute_lazy, strategy=lazy_strategy, quick=120, thorough=3000, quick_shards=8, floor=20,
-        must_hit=('alias_before_base', 'then_full', 'repeat_query', 'via_api', 'lazy:second_database',
+        must_hit=('alias_before_base', 'then_full', 'repeat_query', 'via_api', 'lazy:second_database', 'twin_class_query',
                   'second:redefined_query', 'second:new_query', 'second:untouched_query')),
 ]
 
